@@ -1,11 +1,12 @@
-(** src/cut_lines.rs : read_and_cut_lines, as translated (its two readers taken from the model): the
-    choice between the forward reader and the buffered one is the model's [can_be_streamed] - no
-    -m, no -p, bounds that only move forward, no closed range with a fallback - and the reader's
-    result and output are passed on unchanged. *)
+(** src/cut_lines.rs : read_and_cut_lines, as translated, calling the translated readers: the choice between
+    the forward reader and the buffered one is the model's [can_be_streamed] - no -m, no -p, bounds that only
+    move forward, no closed range with a fallback - and the chosen reader's result and output are passed on
+    unchanged. *)
 From Coq Require Import ZArith Bool List Lia.
 From TucModel Require Import Base.Bytes Model.Bounds Model.Scan Model.Regex Model.Opt Model.CutBytes Model.CutStr Model.CutLines
   Tie.RsPrelude Tie.TieBase Tie.RsList Tie.RsLines
-  Tie.Gen_ubl_is_forward_only Tie.Bridge_ubl_is_forward_only Tie.Bridge_ubl_has_negative_indices Tie.Gen_read_and_cut_lines.
+  Tie.Gen_ubl_is_forward_only Tie.Bridge_ubl_is_forward_only Tie.Bridge_ubl_has_negative_indices
+  Tie.Gen_lines_forward Tie.Gen_cut_lines Tie.Gen_read_and_cut_lines.
 Import ListNotations.
 
 Lemma pass_on (x : rs (option unit * bytes)) :
@@ -20,10 +21,10 @@ Ltac pass := first [apply pass_on | apply pass_on'].
 
 Theorem tie_read_and_cut_lines : forall (stdin : bytes) (o : opt),
   gen_read_and_cut_lines stdin o
-  = match read_and_cut_lines o stdin with Some x => of_outcome x | None => RsPrelude.Panic end.
+  = if can_be_streamed o then gen_lines_forward stdin o else gen_cut_lines stdin o.
 Proof.
   intros stdin o. cbv beta delta [gen_read_and_cut_lines] iota zeta.
-  unfold read_and_cut_lines, can_be_streamed, has_range_with_fallback.
+  unfold can_be_streamed, has_range_with_fallback.
   unfold to_list, iter_ublist.
   match goal with |- context [anyM ?F _] =>
     rewrite (anyM_spec F (fun x => match x with
@@ -33,9 +34,7 @@ Proof.
                                    end)) end.
   2:{ intros [b|f]; [|reflexivity]. unfold fallback_for. destruct (bfb b), (o_fallback o); reflexivity. }
   cbn [bind]. set (h := existsb _ (items (o_bounds o))).
-  destruct (o_complement o), (o_compress o); cbn [negb andb];
-    try (fold (model_lines_buffered stdin o); unfold model_lines_buffered; pass).
+  destruct (o_complement o), (o_compress o); cbn [negb andb]; try pass.
   rewrite tie_ubl_is_forward_only. cbn [bind].
-  destruct (is_forward_only (items (o_bounds o))); cbn [andb]; [destruct h; cbn [negb]|];
-    try (unfold model_lines_buffered; pass).
+  destruct (is_forward_only (items (o_bounds o))); cbn [andb]; [destruct h; cbn [negb]|]; pass.
 Qed.
